@@ -6,10 +6,27 @@ use serde::{Deserialize, Serialize};
 pub const GENERATOR: u32 = 0x1FFF409; // 25-bit Mode S generator polynomial
 
 /// A 56- or 112-bit frame; bit 1 is the first bit on the air (MSB of the first byte).
-#[derive(Clone, Copy, PartialEq, Eq, Hash, Debug, Serialize, Deserialize)]
+#[derive(Clone, Copy, PartialEq, Eq, Hash)]
 pub struct Frame {
     pub bits: u128,
     pub len: u32,
+}
+
+impl std::fmt::Debug for Frame {
+    fn fmt(&self, f: &mut std::fmt::Formatter<'_>) -> std::fmt::Result {
+        write!(f, "{}", self.hex())
+    }
+}
+impl Serialize for Frame {
+    fn serialize<S: serde::Serializer>(&self, s: S) -> Result<S::Ok, S::Error> {
+        s.serialize_str(&self.hex())
+    }
+}
+impl<'de> Deserialize<'de> for Frame {
+    fn deserialize<D: serde::Deserializer<'de>>(d: D) -> Result<Frame, D::Error> {
+        let s = String::deserialize(d)?;
+        Frame::from_hex(&s).ok_or_else(|| serde::de::Error::custom("bad frame hex"))
+    }
 }
 
 impl Frame {
